@@ -937,7 +937,18 @@ func (vfs *OrefaFS) stat(path, op string) (fs.FileInfo, error) {
 	dirName, fileName := avfs.SplitAbs(vfs, absPath)
 
 	vfs.mu.RLock()
+
 	child, childOk := vfs.nodes[absPath]
+	if childOk {
+		// read while the index is locked: a concurrent Remove or Rename
+		// of the entry is seen as a whole or not at all.
+		fst := child.fillStatFrom(fileName)
+
+		vfs.mu.RUnlock()
+
+		return fst, nil
+	}
+
 	vfs.mu.RUnlock()
 
 	if !childOk {
@@ -956,9 +967,7 @@ func (vfs *OrefaFS) stat(path, op string) (fs.FileInfo, error) {
 		return nil, &fs.PathError{Op: op, Path: path, Err: vfs.err.NotADirectory}
 	}
 
-	fst := child.fillStatFrom(fileName)
-
-	return fst, nil
+	return nil, &fs.PathError{Op: op, Path: path, Err: vfs.err.NoSuchFile}
 }
 
 // Sub returns an FS corresponding to the subtree rooted at dir.
